@@ -1,3 +1,4 @@
 import Cherab.Props.C18TableFresh
 open Cherab.Props.C18Table
+#print axioms tables_ok
 #print axioms history_eq_fresh_all
